@@ -63,7 +63,9 @@ impl WireFormat for TimeInterval {
 
 impl From<Duration> for TimeInterval {
     fn from(duration: Duration) -> Self {
-        let val = (duration.nanos().to_bits() >> 16) as i64;
+        // saturate instead of silently wrapping for durations beyond +-2^47 ns
+        let val =
+            (duration.nanos().to_bits() >> 16).clamp(i64::MIN as i128, i64::MAX as i128) as i64;
         TimeInterval(fixed::types::I48F16::from_bits(val))
     }
 }
